@@ -144,7 +144,24 @@ fn writers<T: Serialize + ?Sized>(ctx: &mut Ctx, what: &str, x: &T, model: Resul
         let _ = sonic_rs::to_writer(&mut bx, x);
         differ("to_writer(Box<Vec>)", &bx, &out);
     }
-    ctx.ops(14);
+    // custom indentation through Serializer::with_formatter(PrettyFormatter::with_indent(..)):
+    // the same re-indentation rule with another indent unit
+    for unit in [&b"\t"[..], b" ", b"    ", b"", b"        "] {
+        let mut ser = sonic_rs::Serializer::with_formatter(Vec::new(), sonic_rs::format::PrettyFormatter::with_indent(unit));
+        if x.serialize(&mut ser).is_ok() {
+            let got = ser.into_inner();
+            let want = esc::pretty_with(&out, unit);
+            if got != want {
+                ctx.fail(
+                    &format!("pretty-custom-indent-differs:{}", what),
+                    format!("indent {:?}: {:?} is not the prescribed re-indentation {:?}", String::from_utf8_lossy(unit), crate::core::truncate(&String::from_utf8_lossy(&got), 300), crate::core::truncate(&String::from_utf8_lossy(&want), 300)),
+                );
+            }
+        } else {
+            ctx.fail(&format!("pretty-custom-indent-failed:{}", what), format!("indent {:?}", String::from_utf8_lossy(unit)));
+        }
+    }
+    ctx.ops(19);
     // pretty = re-indented compact
     let want_pretty = esc::pretty(&out);
     if pretty != want_pretty {
